@@ -274,6 +274,10 @@ func run1(raw json.RawMessage, skipOut *bool) driver.Result {
 		res := runBytes(in, fail)
 		res.Direct = direct
 		return res
+	case "doc":
+		res := runDoc(in, fail)
+		res.Direct = direct
+		return res
 	case "enc":
 		res := runEnc(in, fail)
 		res.Direct = direct
@@ -459,6 +463,8 @@ func gen(r *coqfmt.Rng, n int, tier string) []json.RawMessage {
 		switch x := r.Intn(1000) / 10; {
 		case r.Intn(125) == 0: // child processes are expensive: ~0.8 %
 			add(input{K: "envp", Cfg: r.Intn(nEnvCfgs), Env: genEnvp(r)})
+		case x >= 94:
+			add(genDoc(r))
 		case x < 3:
 			add(genBytesCase(r, tg))
 		case x < 7:
@@ -522,6 +528,7 @@ func corpus() []json.RawMessage {
 		add(input{K: "fuzz", E: e, B: []byte{0x80, '"', 0xff}})
 	}
 	extraCorpus(add)
+	docCorpus(add)
 	return out
 }
 
